@@ -60,8 +60,11 @@ prop("C02",
          "axes 0..3 (quick) / 0..5 (thorough); einsum specs from a generated "
          "list"),
      trusted_base=["NumPy-definition spec functions in contracts/"
-                   "c02_lowering.py (validated against NumPy on samples by "
-                   "the spec self-check)"],
+                   "c02_lowering.py (validated against NumPy on samples: "
+                   "slice and //,% definitions on a grid by "
+                   "contracts/specgrid.py; every other spec transitively, by "
+                   "the sampled replays -- real code vs NumPy on premise "
+                   "models of proved obligations)"],
      assumptions=["exact (ring) arithmetic for einsum/CSR values"],
      unverified_surroundings=[
          "pymbolic's construction of expression objects",
@@ -759,3 +762,12 @@ def _c14_typed_scalars(tier, seed):
 
 
 EXTRAS.setdefault("C14", []).append(_c14_typed_scalars)
+
+
+def _spec_grid(tier, seed):
+    from contracts.specgrid import spec_grid
+    return spec_grid(tier, seed)
+
+
+for _p in ("C02", "C03", "C11", "C01"):
+    EXTRAS.setdefault(_p, []).append(_spec_grid)
